@@ -1,7 +1,73 @@
 import Driver.Codec
 import Rbacx.Model.Tools
-/- Driver.CmdC17 — `detect-format`, `cli-status`. -/
+/- Driver.CmdC17 — `detect-format`, `cli-status`, `cli-model` (the model's `parseYaml` / `parsePolicyText` / `parsePolicyBytes` / `cliLoad` /
+   `cliRun` on tables of external outcomes: the same lines `Run/SrcEvalCli.lean` takes for the translation). -/
 open Lean Codec Rbacx
+
+namespace CliCodec
+open Rbacx.PyX
+
+def decResX (j : Json) : Except String Res :=
+  match j.getObjVal? "ok" with
+  | .ok v => do let x ← decVal v; pure (.ok x)
+  | .error _ => do
+    let e := field j "err"
+    let code ← decVal (field e "code")
+    pure (.error { cls := fieldStr e "cls", msg := fieldStr e "msg", code := code })
+
+def encResX : Res → Json
+  | .ok v => Json.mkObj [("ok", encVal v)]
+  | .error e => Json.mkObj [("err", Json.mkObj [("cls", .str e.cls), ("msg", .str e.msg), ("code", encVal e.code)])]
+
+/-- the table of one external (`[[[arguments…], result], …]`) as a total function of the argument list -/
+def decExtX (j : Json) : Except String (List PyVal → Res) := do
+  let entries : List Json := match j with | .arr a => a.toList | _ => []
+  let rows : List (List PyVal × Res) ← entries.mapM fun (e : Json) =>
+    match e with
+    | .arr #[.arr args, r] => do let xs ← args.toList.mapM decVal; let y ← decResX r; pure (xs, y)
+    | _ => throw "bad ext entry"
+  pure fun args => match rows.find? (fun e => e.1 == args) with | some e => e.2 | none => .error { cls := "ExtMiss" }
+
+def extNames : List String :=
+  ["open_read", "stdin_read", "bytes_decode", "json_loads", "import_yaml", "yaml_safe_load", "_parse_require_attrs",
+   "validate_policy", "analyze_policy", "analyze_policyset", "build_parser", "parse_args", "call_func"]
+
+/-- all the tables of a line as one function of (external name, arguments) -/
+def decTables (ext : Json) : Except String (String → List PyVal → Res) := do
+  let tables ← extNames.mapM (fun n => do let t ← decExtX (field ext n); pure (n, t))
+  pure fun n as => match tables.find? (fun t => t.1 == n) with | some t => t.2 as | none => .error { cls := "ExtMiss" }
+
+def worldOf (x : String → List PyVal → Res) : CliWorld :=
+  { openRead := fun p => x "open_read" [p], stdinRead := x "stdin_read" [],
+    parsers := { jsonLoads := fun t => x "json_loads" [t], importYaml := x "import_yaml" [], yamlSafeLoad := fun t => x "yaml_safe_load" [t] },
+    parseRequireAttrs := fun s => x "_parse_require_attrs" [s], validate := fun d => x "validate_policy" [d],
+    lintPolicy := fun d r => x "analyze_policy" [d, r], lintSet := fun d r => x "analyze_policyset" [d, r] }
+
+/-- a hint / path: `None` or a str (anything else is outside the model's domain) -/
+def valToOpt : PyVal → Except String (Option String)
+  | .none => pure none
+  | .str s => pure (some s)
+  | _ => throw "hint outside the model's domain (str | None)"
+
+def evalModel (x : String → List PyVal → Res) (fn : String) (args : List PyVal) : Except String Res := do
+  let w := worldOf x
+  match fn, args with
+  | "_parse_yaml", [t] => pure (parseYaml w.parsers t)
+  | "parse_policy_text", [t, f, c, m] =>
+    pure (parsePolicyText w.parsers t (← valToOpt m) (← valToOpt c) (← valToOpt f))
+  | "parse_policy_bytes", [d, f, c, m, e] =>
+    pure (parsePolicyBytes w.parsers (fun a b => x "bytes_decode" [a, b]) d e (← valToOpt m) (← valToOpt c) (← valToOpt f))
+  | "_load_policy_from_arg", [p] => pure (cliLoad w (← valToOpt p))
+  | "cmd_lint", [a] =>
+    pure (encExit (cliRun .lint w (cliFlag a "strict") (cliFlag a "policyset") (← valToOpt (getattrD a "policy" .none)) (getattrD a "require_attrs" .none)))
+  | "cmd_validate", [a] =>
+    pure (encExit (cliRun .validate w (cliFlag a "strict") (cliFlag a "policyset") (← valToOpt (getattrD a "policy" .none)) (getattrD a "require_attrs" .none)))
+  | "cmd_check", [a] =>
+    pure (encExit (cliRun .check w (cliFlag a "strict") (cliFlag a "policyset") (← valToOpt (getattrD a "policy" .none)) (getattrD a "require_attrs" .none)))
+  | "main", [argv] => pure (cliMain (x "build_parser" []) (fun a => x "parse_args" [a]) (fun a => x "call_func" [a]) argv)
+  | _, _ => throw s!"no model function for {fn}/{args.length}"
+
+end CliCodec
 
 def optStr (j : Json) (k : String) : Option String :=
   match field j k with
@@ -18,4 +84,11 @@ def handleC17 (cmd : String) (j : Json) : Option (Except String Json) :=
     let verdicts := (fieldArr j "verdicts").map fun v => match v with | .bool b => b | _ => false
     let n := match field j "lint_issues" with | .num k => k.mantissa.toNat | _ => 0
     some (pure (.num (cliStatus c (fieldBool j "strict") (fieldBool j "validator") verdicts n)))
+  | "cli-model" =>
+    some (do
+      let args ← match field j "args" with | .arr xs => xs.toList.mapM decVal | _ => throw "args"
+      let x ← CliCodec.decTables (field j "ext")
+      match CliCodec.evalModel x (fieldStr j "fn") args with
+      | .ok r => pure (CliCodec.encResX r)
+      | .error e => pure (Json.mkObj [("error", .str e)]))
   | _ => none
